@@ -355,8 +355,9 @@ def execute(case, stats):
         # is a degenerate request: the front-end widens it; not judged
         tol_d = 1e-12 * max(1.0, abs(ulo or 0.0), abs(uhi or 0.0))  # np.log10 and math.log10 may differ in the last bit
         degenerate = ((ulo is not None and uhi is None and (len(fin) == 0 or fin.max() <= ulo + tol_d)) or
-                      (uhi is not None and ulo is None and (len(fin) == 0 or fin.min() >= uhi - tol_d)) or
-                      (ulo is None and uhi is None and len(fin) and fin.max() - fin.min() <= tol_d))
+                      (uhi is not None and ulo is None and (len(fin) == 0 or fin.min() >= uhi - tol_d)))
+        # (all data equal with two automatic limits is *not* degenerate for the oracle: the front-end has to widen the
+        #  range so that the points are still counted exactly once)
         if not (np.isfinite(lo) and np.isfinite(hi) and hi > lo):
             if degenerate:
                 stats.inc("ambig.degenerate_requested_range")
